@@ -16,6 +16,10 @@ def strip(text):
     return ANSI.sub("", text)
 
 
+class FormatNotRecognised(Exception):
+    """harness error, never a violation"""
+
+
 class Violation:
     def __init__(self, prop, signature, detail, step=None):
         self.prop = prop
@@ -107,6 +111,12 @@ class RunObs:
                     continue
             elif k in ("sigsent", "handler", "DEADLOCK", "main_done", "EXITHANG"):
                 self.events.append((ti, k, None, {"ev": e}))
+        # the oracles read Conductor's status lines; if none can be recognised although tasks ran, the
+        # output format has changed and nothing this module concludes can be trusted
+        if inv.code is not None and inv.internal is None and not inv.killed and \
+                any(sp["task"] in tasks for sp in inv.spawns) and \
+                not any(kind == "running" for _, kind, _, _, _ in self.printed):
+            raise FormatNotRecognised("cond run spawned tasks but printed no recognisable 'Running' status line")
         # final report
         text = strip(inv.out.decode("utf-8", "replace"))
         self.text = text
